@@ -243,11 +243,13 @@ def ixJ (i : IndexDef) : Json :=
 
 def tdOfJson (j : Json) : TableDef :=
   { name := getStrD j "name", schema := getStr j "schema", cols := (getArr j "cols").map colOfJson,
-    cons := (getArr j "cons").map consOfJson, comment := getStr j "comment", extra := getStrD j "extra" }
+    cons := (getArr j "cons").map consOfJson, comment := getStr j "comment", extra := getStrD j "extra",
+    ixs := getStrList j "ixs" }
 
 def tdJ (t : TableDef) : Json :=
   obj [("name", Json.str t.name), ("schema", optStrJ t.schema), ("cols", Json.arr (t.cols.map colJ).toArray),
-       ("cons", Json.arr (t.cons.map consJ).toArray), ("comment", optStrJ t.comment), ("extra", Json.str t.extra)]
+       ("cons", Json.arr (t.cons.map consJ).toArray), ("comment", optStrJ t.comment), ("extra", Json.str t.extra),
+       ("ixs", strs t.ixs)]
 
 def triOfJson (j : Json) (k : String) : Tri :=
   match j.getObjVal? k with
